@@ -110,7 +110,9 @@ class Ctr:
         return {"id": b64e(self.id), "names": [b64e(n) for n in self.names], "image": b64e(self.image), "image_id": b64e(self.image_id),
                 "command": b64e(self.command), "state": b64e(self.state), "status": b64e(self.status), "created": self.created,
                 "labels": [[b64e(k), b64e(v)] for k, v in self.labels.items()], "events": self.stream(faulty),
-                "open_fail": bool(faulty and self.fault and self.fault[0] == "open")}
+                "open_fail": bool(faulty and self.fault and self.fault[0] == "open"),
+                # the class of the daemon's answer when the log cannot be opened: whatever it is, it is a failure of the query
+                "open_fail_class": ["generic", "notfound", "eof", "canceled", "unavailable", "ueof"][sum(self.id.encode()) % 6]}
 
     def coq(self, faulty=True):
         return "ctr %s %s %s %s %s %s %s %s %s %s %s" % (
